@@ -278,9 +278,9 @@ func (e *enc) strLit(s string) string {
 	e.declare(n, "Str")
 	e.assert(fmt.Sprintf("(= (strlen %s) %d)", n, len(s)))
 	// distinct from every other literal
-	for o, on := range e.strLits {
+	for _, o := range sortedKeys(e.strLits) {
 		if o != s {
-			e.assert(fmt.Sprintf("(not (= %s %s))", n, on))
+			e.assert(fmt.Sprintf("(not (= %s %s))", n, e.strLits[o]))
 		}
 	}
 	return n
@@ -318,6 +318,48 @@ func heapCell(sort string) string { return "Mem_" + sortKey(sort) }
 
 func (e *enc) heap(st *State, sort string) string {
 	return e.get(st, heapCell(sort), "(Array Ref "+sort+")")
+}
+
+// Memory is split in two families of arrays. Addresses rooted (syntactically) at a PROTECTED
+// local variable of this activation -- one whose address never leaves the function except as a
+// direct call argument or closure binding -- live in LMem_*; everything else lives in Mem_*.
+// A protected address is only ever built from its Alloc, so the choice by term is consistent.
+func isLocalTerm(addr string) bool {
+	t := addr
+	for {
+		switch {
+		case strings.HasPrefix(t, "(fld "):
+			t = t[5:]
+		case strings.HasPrefix(t, "(elem "):
+			t = t[6:]
+		default:
+			if !strings.HasPrefix(t, "(alloc (- ") {
+				return false
+			}
+			n := 0
+			for _, c := range t[10:] {
+				if c < '0' || c > '9' {
+					break
+				}
+				n = n*10 + int(c-'0')
+				if n >= 1000000 {
+					return false
+				}
+			}
+			return n > 0
+		}
+	}
+}
+
+func memCell(sort, addr string) string {
+	if isLocalTerm(addr) {
+		return "LMem_" + sortKey(sort)
+	}
+	return heapCell(sort)
+}
+
+func (e *enc) heapAt(st *State, sort, addr string) string {
+	return e.get(st, memCell(sort, addr), "(Array Ref "+sort+")")
 }
 
 func (e *enc) zeroOf(t types.Type) string {
@@ -404,11 +446,11 @@ func (e *enc) loadValue(st *State, addr string, t types.Type) string {
 		a := e.fresh("arr", sortOf(t))
 		if isHeapScalar(es) {
 			e.assert(fmt.Sprintf("(forall ((i Int)) (! (=> (and (<= 0 i) (< i %d)) (= (select %s i) (select %s (elem %s i)))) :pattern ((select %s i))))",
-				u.Len(), a, e.heap(st, es), addr, a))
+				u.Len(), a, e.heapAt(st, es, addr), addr, a))
 		}
 		return a
 	}
-	return fmt.Sprintf("(select %s %s)", e.heap(st, sortOf(t)), addr)
+	return fmt.Sprintf("(select %s %s)", e.heapAt(st, sortOf(t), addr), addr)
 }
 
 // storeValue writes val of type t at address addr.
@@ -426,18 +468,36 @@ func (e *enc) storeValue(st *State, addr, val string, t types.Type) {
 			// array of aggregates: havoc leaf memory conservatively
 			ms := newModSet()
 			typeLeaves(t, ms.fields, ms.elems)
+			if isLocalTerm(addr) {
+				// protected local: forget the local memory of the leaf sorts (coarse, sound)
+				sorts := map[string]bool{}
+				for id := range ms.fields {
+					if v := fieldByID[id]; v != nil {
+						sorts[sortOf(v.Type())] = true
+					}
+				}
+				for s := range ms.elems {
+					sorts[s] = true
+				}
+				for _, s := range sortedKeys(sorts) {
+					if isHeapScalar(s) {
+						st.cells["LMem_"+sortKey(s)] = e.fresh("LMem_"+sortKey(s)+"_arr", "(Array Ref "+s+")")
+					}
+				}
+				return
+			}
 			e.havoc(st, ms, "arrstore")
 			return
 		}
-		old := e.heap(st, es)
+		old := e.heapAt(st, es, addr)
 		nw := e.fresh("Mem_"+sortKey(es), "(Array Ref "+es+")")
 		e.assert(fmt.Sprintf("(forall ((r Ref)) (! (= (select %s r) (ite (and ((_ is elem) r) (= (ebase r) %s) (<= 0 (eidx r)) (< (eidx r) %d)) (select %s (eidx r)) (select %s r))) :pattern ((select %s r))))",
 			nw, addr, u.Len(), val, old, nw))
-		st.cells[heapCell(es)] = nw
+		st.cells[memCell(es, addr)] = nw
 		return
 	}
 	s := sortOf(t)
-	st.cells[heapCell(s)] = fmt.Sprintf("(store %s %s %s)", e.heap(st, s), addr, val)
+	st.cells[memCell(s, addr)] = fmt.Sprintf("(store %s %s %s)", e.heapAt(st, s, addr), addr, val)
 }
 
 // ---- havoc ---------------------------------------------------------------------------------
@@ -1049,9 +1109,9 @@ func (e *enc) initialFor(cell string, st *State) string {
 var cellSorts = map[string]string{}
 
 func (e *enc) cellSort(cell string) string {
-	if strings.HasPrefix(cell, "Mem_") {
+	if strings.HasPrefix(cell, "Mem_") || strings.HasPrefix(cell, "LMem_") {
 		for _, s := range heapSorts {
-			if heapCell(s) == cell {
+			if heapCell(s) == strings.TrimPrefix(cell, "L") {
 				return "(Array Ref " + s + ")"
 			}
 		}
